@@ -1,6 +1,6 @@
 """C04 — traversals visit each node once, in the documented order, honouring filters."""
 from __future__ import annotations
-import itertools, random
+import collections, itertools, random, zlib
 import core
 from core import hx, nats
 from runner import Case
@@ -200,7 +200,8 @@ def nontrivial(case):
 # ---------------------------------------------------------------- implementation side
 def _build(d):
     if d["binary"]:
-        root, nodes = core.build_binary_tree(d["spec"])
+        from props import _d_hist as H
+        root, nodes = core.build_binary_tree(d["spec"], cls=H.hooked_bin() if d.get("prep") else None)
     else:
         root, nodes = core.build_node_tree(d["spec"])
     prep = d.get("prep")
@@ -232,7 +233,21 @@ def _build(d):
         elif mode == "parent":
             root.parent = None
         nodes[0]._keep_hosts = hosts  # keep the host chain alive
+        if d["binary"]:
+            # children assignments that a user hook refuses AFTER reading the children (rolled back: nothing changes)
+            from props import _d_hist as H
+            for x in [n for n in nodes if any(c is not None for c in n.children)][:3]:
+                H.ARM["point"], H.ARM["op"] = "post", ["bhook", 0, 0, 0, "post"]
+                try:
+                    x.children = [x.right, x.left]
+                except Exception:  # noqa: BLE001 - the roll-back is the point
+                    pass
+                finally:
+                    H.ARM["point"] = H.ARM["op"] = None
     return root, nodes
+
+
+_ABANDONED = collections.deque(maxlen=40)
 
 
 def _call(d, nodes):
@@ -244,10 +259,25 @@ def _call(d, nodes):
     stop = None if sset is None else (lambda n: ids(n) in sset)
     start = nodes[d["start"]]
     k = d["kind"]
+    fns = {"pre": bigtree.preorder_iter, "post": bigtree.postorder_iter, "level": bigtree.levelorder_iter,
+           "levelgroup": bigtree.levelordergroup_iter, "zig": bigtree.zigzag_iter, "ziggroup": bigtree.zigzaggroup_iter,
+           "inorder": bigtree.inorder_iter}
+    if zlib.crc32(repr((k, d["start"], d["md"], len(nodes))).encode()) % 2 == 0:
+        # an earlier traversal of the same tree that the caller abandoned after one or two items (a `break`, a
+        # `next(iter(...))`), and one that is still suspended: whatever they leave behind must not reach this call
+        for kind in (k, "post" if k != "post" else "pre"):
+            if kind == "inorder" and not hasattr(nodes[0], "left"):
+                continue
+            try:
+                it = iter(fns[kind](nodes[0]))
+                next(it, None)
+                next(it, None)
+                _ABANDONED.append(it)
+            except Exception:  # noqa: BLE001
+                pass
     if k == "inorder":
         return ids, list(bigtree.inorder_iter(start, filter_condition=filt, max_depth=d["md"]))
-    fn = {"pre": bigtree.preorder_iter, "post": bigtree.postorder_iter, "level": bigtree.levelorder_iter,
-          "levelgroup": bigtree.levelordergroup_iter, "zig": bigtree.zigzag_iter, "ziggroup": bigtree.zigzaggroup_iter}[k]
+    fn = fns[k]
     return ids, list(fn(start, filter_condition=filt, stop_condition=stop, max_depth=d["md"]))
 
 
